@@ -25,6 +25,7 @@ def model(outline, depth, omit_title, filters):
     """[(level, text)] of the qualifying headings in document order."""
     out = []
     for level, text in outline:
+        text = text.replace('\n', ' ')          # a line break inside a heading counts as a space in the entry's text
         if omit_title and level == 1:
             continue
         if level > depth:
@@ -137,6 +138,11 @@ def make_doc(rng):
         elif r < 0.32:
             inl.insert(rng.randint(1, len(inl)), ('strong', '_', [('text', gen.word(rng))], ''))
         if level <= 2 and not in_quote and rng.random() < 0.3:
+            if len(inl) > 1 and rng.random() < 0.4:
+                # 4.3: a setext heading may span lines; the entry carries the words of all of them
+                inl.insert(rng.randint(1, len(inl) - 1), ('soft',))
+                if inl[-1][0] == 'soft' or any(a[0] == 'soft' and b[0] != 'text' for a, b in zip(inl, inl[1:])):
+                    inl = [x for x in inl if x[0] != 'soft']        # (R1: the line after a break starts with a plain word)
             nd = gen.Node('setext', level=level, inl=inl, under=('=' if level == 1 else '-') * rng.choice((3, 5, 9)))
         else:
             nd = gen.Node('atx', level=level, inl=inl, closing=rng.choice(('', '', '#', '##')))
